@@ -11,3 +11,23 @@ add("C20", "exploration", "property-based testing (Hypothesis): constructed weig
     "Small partitions are enumerated exhaustively. Held-on-everything-generated, not a proof.",
     "Trusts the scripted controller double to reflect Controller.get_stage_status/get_stages_*; near-one (within 1e-3) "
     "inexact sums are outside the generated domain.", "DESIGN.md section 3, C20")
+
+_RT_NOTE = ("Trusted base: the deterministic kernel in vf/rt (replaces reactivex thread pools/timers, time.sleep, "
+            "datetime.now, threading.Thread and monitor.CreateMonitor's polling thread by one harness-owned virtual-time "
+            "scheduler; pool capacity/FIFO semantics modelled), scripted task doubles for the backend; callbacks are "
+            "atomic (no pre-emption inside one callback).")
+add("C01", "exploration", "property-based testing (Hypothesis): generated workflows x exit scripts x harness-owned "
+    "schedules of the real Controller/ComponentState/Engine; launch-time history invariant vs independent replication model",
+    "Every task launch of the real runtime (Controller, ComponentState, Engine, RepeatingEngine unmodified) is checked "
+    "against the dataflow model: producers final (or, for a same-stage repeating consumer, launched), none failed, none "
+    "shut down for non-aggregating consumers - over generated DAGs with stages, replicas, aggregators, observers, failing "
+    "and restarting tasks, under Hypothesis-chosen interleavings of callbacks, task exits and scheduler passes. "
+    "Held on everything generated; schedules are replayable decision lists.", _RT_NOTE, "DESIGN.md section 3, C01")
+add("C02", "exploration", "property-based testing (Hypothesis): same runtime harness; rule model of final states + "
+    "metamorphic agreement between several schedules of one (workflow, exit script); bounded-quiescence termination",
+    "Each generated (workflow, exit-reason script) runs under a drawn schedule plus FIFO and LIFO delivery; checked: "
+    "the stage loop terminates (bounded virtual-time quiescence), every component of a completed stage is final, final "
+    "states equal the rule model written from the statement when no exit is unrecoverable, otherwise >=1 failed "
+    "component, failed stage, others in rule state or shut down; and schedules agree. One open known finding (observer "
+    "of a shut-down subject) is excluded by signature.", _RT_NOTE + " Liveness is only checked as bounded quiescence.",
+    "DESIGN.md section 3, C02")
